@@ -72,6 +72,7 @@ type vspScenario struct {
 	Actors []vspActorSpec    `json:"actors"`
 	Chans  []string          `json:"chans"`
 	Sched  []json.RawMessage `json:"sched"`
+	Batch  int               `json:"batch"` // the scenario's channels use per-channel write batching (Config.GetChannelBatchConfig, MaxDelay)
 	Obs    int               `json:"obs"` // observer connections (JSON/Protobuf x bi/unidirectional) subscribed to every channel
 }
 
@@ -660,6 +661,13 @@ func vspNewWorld() (*vspWorld, error) {
 			}
 		},
 		Metrics: MetricsConfig{RegistererGatherer: registry},
+		// channels named "<base>~b<n>" are batched: pushes to their subscribers wait in the per-channel writer
+		GetChannelBatchConfig: func(channel string) ChannelBatchConfig {
+			if strings.Contains(channel, "~b") {
+				return ChannelBatchConfig{MaxDelay: vspBatchDelay}
+			}
+			return ChannelBatchConfig{}
+		},
 		Map: MapConfig{
 			GetMapChannelOptions: func(channel string) MapChannelOptions {
 				return MapChannelOptions{Mode: MapModeEphemeral, KeyTTL: 60 * time.Second, MinPageSize: 1}
@@ -934,6 +942,8 @@ func (e *vspEnv) runActor(a *vspActor) {
 }
 
 var vspTheWorld *vspWorld
+
+const vspBatchDelay = 80 * time.Millisecond
 var vspLastSched *vspSched
 
 func vspRunScenario(line string) (out string) {
@@ -981,6 +991,9 @@ func vspRunScenario(line string) (out string) {
 	s := &vspSched{byGoid: map[int64]*vspActor{}, freeRun: true}
 	vspLastSched = s
 	e := &vspEnv{s: s, w: w, node: node, chans: sc.Chans, suffix: "~" + strconv.Itoa(w.seq), onUnsub: map[string]int{}}
+	if sc.Batch != 0 {
+		e.suffix = "~b" + strconv.Itoa(w.seq)
+	}
 	if len(sc.Connect) > 0 {
 		s.failByCh = map[string]string{}
 		for _, cs := range sc.Connect {
@@ -1271,6 +1284,10 @@ func vspRunScenario(line string) (out string) {
 				return "HARNESS-ERROR publish: " + err.Error()
 			}
 		}
+	}
+	if sc.Batch != 0 {
+		// batched pushes reach the connection queues only when the per-channel writers flush
+		time.Sleep(vspBatchDelay + 70*time.Millisecond)
 	}
 	client.mu.RLock()
 	closed := client.status == statusClosed
